@@ -25,6 +25,7 @@ Directive summary (lines starting with //@):
       //@rw wildcard_closure          R9: `|_|` => `|_e|`
       //@rw name_iters                R13 as a rule: `for PAT in A..B` => `for PAT in iter: A..B` (ghost iterator name only)
       //@rw deref_buffer A,B          R15 as a rule: A[..] => A.buffer[..], A.len() => A.buffer.len() for the listed variables
+      //@rw float_neg                 R16: unary `-(E)` on floats => `f64_neg(E)` (contracted wrapper)
       //@rw float_opassign A,B        R4 as a rule: `LHS op= RHS;` => `LHS = LHS op (RHS);` when LHS starts with a listed name
       //@subst KIND "A" => "B" [count N]   declared literal rewrite (KIND in R4,R5,R6,R7,R11)
       //@hole NAME from "TEXT" [occ N] [until "{"] => "REPLACEMENT"   R8: expression from after TEXT up to the
@@ -53,6 +54,7 @@ SUBST_KINDS = {
     'R11': 'std method call => same call through a wrapper fn whose spec is an assume_specification-style contract',
     'R12': 'pattern destructuring in closure/let position => field access',
     'R15': 'Deref of a deref_buffer! newtype made explicit: x[i] => x.buffer[i], x.len() => x.buffer.len(), and float compound assignment on it expanded (X op= E => X = X op E)',
+    'R16': 'unary minus on a parenthesised float expression routed through the contracted wrapper f64_neg: -(E) => f64_neg(E)',
     'R14': 'explicit type ascription on a let (the type rustc infers; needed because spliced spec text mentions the variable before inference completes)',
     'R13': 'contract splice on a nested fn or closure header (adds specification text and a name for the return value; executable text unchanged)',
 }
@@ -510,6 +512,15 @@ class Extractor:
                     rep = '%s%s = %s %s (%s);' % (mm.group(1), fix(lhs), fix(lhs), op, fix(rhs))
                     edits.append(Edit(mm.start(), mm.end(), rep, 'R4'))
                 self.substs.append({'fn': qual, 'kind': 'R4', 'from': 'LHS op= RHS; with LHS starting with one of %s' % names, 'to': 'LHS = LHS op (RHS);', 'count': -1})
+            elif head == 'rw float_neg':
+                # R16 as a rule: unary minus applied to a parenthesised (float) expression, which Verus does not
+                # accept, goes through the contracted wrapper f64_neg (float_axioms.inc): `-(E)` => `f64_neg(E)`
+                cnt = 0
+                for mm in find_code(item, mask, r'(?<=[=(,{;:])\s*-\(', body_open, body_close):
+                    minus = item.index('-', mm.start())
+                    edits.append(Edit(minus, minus + 1, 'f64_neg', 'R16'))
+                    cnt += 1
+                self.substs.append({'fn': qual, 'kind': 'R16', 'from': '-(E)', 'to': 'f64_neg(E)', 'count': cnt})
             elif head == 'rw name_iters':
                 # R13 as a rule: every `for PAT in A..B` gets a named ghost iterator (`for PAT in iter: A..B`)
                 # so that spliced invariants can refer to iter.iter.end; the executable text is unchanged
